@@ -332,6 +332,26 @@ def atoms_at(fn, terms, block):
     return out
 
 
+def phi_provenance_atoms(fn, terms, phi, atoms):
+    """If `phi != NULL` is among `atoms` and exactly one incoming value of the phi is not the NULL constant, control came through
+    that incoming edge: the atoms that dominate it hold as well (loop-free position only)."""
+    if phi.op != 'phi' or phi.block.loop is not None:
+        return []
+    if not has_atom(atoms, 'ne', ('phi', phi.id), ('const', 0)):
+        return []
+    nz = [(bid, v) for bid, v in phi.incoming if const_of(v) != 0 and v.k != 'null']
+    if len(nz) != 1 or len(phi.incoming) < 2:
+        return []
+    pred = fn.bmap[nz[0][0]]
+    if pred.loop is not None:
+        return []
+    out = list(atoms_at(fn, terms, pred))
+    for s2, lab in out_edges(pred):
+        if s2 is phi.block and lab is not None and lab[0] == 'br':
+            out.extend(cond_atoms(terms, lab[1], lab[2]))
+    return out
+
+
 def norm_atom(a):
     """Put constants on the right."""
     if a[0] == 'cmp' and a[2][0] == 'const' and a[3][0] != 'const':
